@@ -196,7 +196,14 @@ def mk(name: str, ins: List[str], outs: List[str], content: str) -> Any:
     else:
         a = [Atom("A%s" % name, iv)]
         g = [Atom("G%s" % name, iv + ov), Atom("H%s" % name, ov[:1] + iv[:1])]
-    return IoContract(SymTL(a), SymTL(g), iv, ov, simplify=False)
+    return IoContract(raw_list(a), raw_list(g), iv, ov, simplify=False)
+
+
+def raw_list(atoms: List[Atom]) -> Any:
+    """An operand list that certainly holds the given atoms (the generic constructor is part of the code under test)."""
+    tl = SymTL([])
+    tl.terms = list(atoms)
+    return tl
 
 
 def hon(c: Any) -> Any:
@@ -224,6 +231,12 @@ def run_script(ctx: Ctx, topo: Dict[str, Any], script: List[int]) -> List[Tuple[
     c1 = mk("1", topo["in1"], topo["out1"], topo["content"])
     c2 = mk("2", topo["in2"], topo["out2"], topo["content"])
     case = {"topology": topo, "script": list(script)}
+    for c in (c1, c2):
+        if not c.a.terms or not c.g.terms:
+            ctx.violation("operand-lost-its-terms", "a contract built from non-empty symbolic lists holds A=%s G=%s: the "
+                          "generic TermList constructor / copy dropped the terms" % (c.a, c.g), case)
+            ctx.case_done(case, True)
+            return []
     try:
         if op == "compose":
             res = c1.compose(c2, [Var(v) for v in topo["opt"]])
